@@ -8,6 +8,9 @@ package db
 
 //@ props C03
 
+// [frame-sets]: the only pre-existing TimedSets written are the per-user sets the map held on entry (everything else
+// written is a fresh set), so a caller keeps what it knows about the sets of another access map (C18: doc.RoleAccess
+// across doc.Access.updateAccess).
 // (user, channel) is granted by the access map / by the sync function output
 //@ pred amGrants(m UserAccessMap, u string, c string) bool
 //@   is (u in m) && (c in m[u])
@@ -40,6 +43,8 @@ package db
 //@   ensures[changed-sound] forall i int :: {changedUsers[i]} 0 <= i && i < len(changedUsers) ==> (exists c string :: {c in newAccess[changedUsers[i]]} {old(c in (*accessMap)[now(changedUsers[i])])} old(amGrants(*accessMap, now(changedUsers[i]), c)) != newGrants(newAccess, changedUsers[i], c)) || (!old(now(changedUsers[i]) in *accessMap) && (changedUsers[i] in *accessMap))
 //@   loop * invariant[ch-sound]  forall i int :: {changedUsers[i]} 0 <= i && i < len(changedUsers) ==> (exists c string :: {c in newAccess[changedUsers[i]]} {old(c in (*accessMap)[now(changedUsers[i])])} old(amGrants(*accessMap, now(changedUsers[i]), c)) != newGrants(newAccess, changedUsers[i], c)) || (!old(now(changedUsers[i]) in *accessMap) && (changedUsers[i] in *accessMap))
 //@   loop * invariant[del-diff]  forall u string :: {old(u in *accessMap)} {u in *accessMap} old(u in *accessMap) && !(u in *accessMap) ==> (exists c string :: {c in newAccess[u]} {old(c in (*accessMap)[u])} old(amGrants(*accessMap, u, c)) != newGrants(newAccess, u, c))
+//@   ensures[frame-sets] forall t channels.TimedSet, k string :: {old(k in t)} {old(t[k])} old(allocated(t)) && !old(exists u string :: {(*accessMap)[u]} (u in *accessMap) && (*accessMap)[u] == t) ==> ((k in t) <==> old(k in t)) && t[k] == old(t[k])
+//@   loop * invariant[frame-sets] forall t channels.TimedSet, k string :: {old(allocated(t)), old(k in t)} {old(allocated(t)), old(t[k])} old(allocated(t)) && !old(exists u string :: {(*accessMap)[u]} (u in *accessMap) && (*accessMap)[u] == t) ==> ((k in t) <==> old(k in t)) && t[k] == old(t[k])
 //@   ensures[keys-cover]  forall u string :: {u in *accessMap} (u in newAccess) ==> (u in *accessMap)
 //@   ensures[idempotent]  old(amSame(*accessMap, newAccess)) ==> len(changedUsers) == 0
 //@   loop * invariant[idem]      old(amSame(*accessMap, newAccess)) ==> len(changedUsers) == 0
